@@ -530,3 +530,28 @@ def get_schema_from_response(resp_ir: IRResponse, all_schemas: dict[str, IRSchem
     """Get the schema from a response object."""
     schema, _ = _get_response_schema_and_content_type(resp_ir)
     return schema
+
+
+def python_string_literal(text: str) -> str:
+    """Return a double-quoted Python string literal that evaluates to exactly ``text``.
+
+    Spec text (parameter names, keys) that is embedded into generated source must stay data: quotes and
+    backslashes are escaped, and every character that is not printable (newlines, U+2028, U+0085, ...) is
+    written as an escape sequence, so that neither the tokenizer nor line-based processing of the generated
+    text can be affected by it.
+    """
+    out = ['"']
+    for ch in text:
+        cp = ord(ch)
+        if ch in ('"', "\\"):
+            out.append("\\" + ch)
+        elif ch.isprintable():
+            out.append(ch)
+        elif cp <= 0xFF:
+            out.append(f"\\x{cp:02x}")
+        elif cp <= 0xFFFF:
+            out.append(f"\\u{cp:04x}")
+        else:
+            out.append(f"\\U{cp:08x}")
+    out.append('"')
+    return "".join(out)
